@@ -82,8 +82,9 @@ def register(reg, prog):
     reg.externals['TokenManagerI.dispatch_error'] = logger('tm_dispatch_error')
 
     def tm_process_response(ex, st, args, kw, node):
-        st.log.append(('process_response',) + tuple(args))
-        return [(st, VBool(z3.Bool(fresh_name('matched'))))]
+        r = VBool(z3.Bool(fresh_name('matched')))
+        st.log.append(('process_response',) + tuple(args) + (r,))
+        return [(st, r)]
     reg.externals['TokenManagerI.process_response'] = tm_process_response
 
     # ------------------------------------------------------------ frame codec
